@@ -32,10 +32,10 @@ type Call struct {
 
 type fileInfo struct {
 	harness bool // owned by the harness (not counted as a leak of the code under test)
-	idx    int
-	fd     int
-	closed bool
-	pipe   bool
+	idx     int
+	fd      int
+	closed  bool
+	pipe    bool
 }
 
 // ReadFault replaces the answer of the n-th read (0-based, counted per execution).
@@ -58,6 +58,7 @@ type State struct {
 	nInit      int
 	nRead      int
 	nRm        int
+	SyncClose  bool                      // perform closes synchronously (descriptor numbers become reusable at once, as in a real process)
 	OnRead     func(fd int, data []byte) // called right after a successful real read
 	OnAdd      func(fd int, path string, mask uint32, wd int, err error)
 	OnRm       func(fd int, wd uint32, err error)
@@ -273,6 +274,12 @@ func CloseFile(f *os.File) error {
 		return err
 	}
 	fi.closed = true
+	if s.SyncClose {
+		err := f.Close()
+		fi.fd = -1 // the number is free for reuse from here on
+		s.log(Call{Kind: "close", Fd: fi.fd, Err: errStr(err)})
+		return err
+	}
 	asyncClose(f)
 	s.log(Call{Kind: "close", Fd: fi.fd})
 	return nil
